@@ -299,7 +299,7 @@ def _template_perm(t, case, rng):
     t.check(bool(np.allclose(ta, m_or, rtol=1e-12, atol=1e-9)), 'template_row_is_not_class_mean', lambda: dict(info, got=ta.tolist()[:2], expected=m_or.tolist()[:2]))
     a.update(traces, data)
     b.update(traces, data)
-    sa, sb = np.asarray(a.compute(), dtype=float), np.asarray(b.compute(), dtype=float)
+    sa, sb = np.asarray(a.compute(), dtype=float).ravel(), np.asarray(b.compute(), dtype=float).ravel()
     t.count('perm_twins')
     rt = 1e-7
     if name == 'tstatic':
